@@ -447,7 +447,7 @@ def compare(res: Result, level, stream, kinds, fault, sched_kind, cuts, maxsize,
 
 def plan(tier, seed):
     n = 12 if tier == 'quick' else 40
-    shards = [{'shard': i, 'nshards': n, 'streams': 24 if tier == 'quick' else 400, 'short': 3 if tier == 'quick' else 10} for i in range(n)]
+    shards = [{'shard': i, 'nshards': n, 'streams': 24 if tier == 'quick' else 250, 'short': 3 if tier == 'quick' else 10} for i in range(n)]
     m = 4 if tier == 'quick' else 16
     shards += [{'shard': 1000 + i, 'level3': True, 'cases': 12 if tier == 'quick' else 120} for i in range(m)]
     shards += [{'shard': 2000 + i, 'maxsize': True, 'part': i, 'of': 4} for i in range(4)]
